@@ -116,7 +116,7 @@ theorem readHeader_con_space : LPost (readHeader inp) (fun h => h.num_algebraic_
     have := (readCommonExprs_spec inp h0).h r a r' hr
     omega
   unfold readHeader
-  repeat (first | (apply key; simp only []; omega) | exact lpost_tReport _ | exact lpost_ub | apply lpost_dite | apply lpost_bind | intro _ | split)
+  repeat (first | (apply key; simp only [G.conOverflow, intMax] at *; omega) | exact lpost_tReport _ | exact lpost_ub | apply lpost_dite | apply lpost_bind | intro _ | split)
 
 end
 end MpVerif.C02
